@@ -12,6 +12,7 @@ KIND_PROP = {
     'data_wrong': 'C14', 'data_not_fixpoint': 'C14',
     'count_mismatch': 'C10',
     'rw_missing_eq': 'C04', 'probe_missing': 'C04', 'rw_unsound_eq': 'C05', 'unbound_var': 'C05', 'match_not_represented': 'C05', 'match_mutated': 'C05',
+    'mm_unbound_var': 'C05', 'mm_equation_fails': 'C05', 'mm_mutated': 'C05',
     'false_but_changed': 'C15', 'false_but_new': 'C15',
     'extract_panic': 'C06', 'extract_not_member': 'C06', 'extract_cost_mismatch': 'C06', 'extract_not_cheapest': 'C06', 'extract_foreign_slot': 'C06',
 }
@@ -141,6 +142,15 @@ def judge_record(tmpl, rec):
             for mt in em['matches']:
                 if sorted(mt['bound']) != want_vars: out.append(('unbound_var', k, [mt['bound'], want_vars]))
                 if not mt['found']: out.append(('match_not_represented', k, mt['binds']))
+        mm = st.get('mmatch')
+        if mm:
+            eqs_ = tmpl.ops[k - 1][1]; want_vars = set()
+            for v, npat in eqs_:
+                want_vars.add(v[1:]); want_vars |= {x[1:] for x in O.pat_vars(tuple_term(npat))}
+            if not mm['unchanged']: out.append(('mm_mutated', k, None))
+            for mt in mm['matches']:
+                if set(mt['bound']) != want_vars: out.append(('mm_unbound_var', k, [mt['bound'], sorted(want_vars)]))
+                if not all(mt['equations_hold']): out.append(('mm_equation_fails', k, mt['equations_hold']))
         # extraction
         xt = st.get('extract')
         if xt:
@@ -248,7 +258,7 @@ def observable_view(rec):
         out.append({'eq': st['eq'], 'nslots': [(c or {}).get('nslots') for c in st['canon']], 'vals': [(c or {}).get('vals') for c in st['canon']],
                     'gcount': [st['classes'].get(str((c or {}).get('id')), {}).get('gcount') for c in st['canon']],
                     'data': [st['classes'].get(str((c or {}).get('id')), {}).get('data') for c in st['canon']],
-                    'ematch': _em_view(st.get('ematch')), 'probe': st.get('probe'), 'rewrite_ret': st.get('rewrite_ret'), 'extract_cost': (st.get('extract') or {}).get('cost'),
+                    'ematch': _em_view(st.get('ematch')), 'mmatch': st.get('mmatch'), 'probe': st.get('probe'), 'rewrite_ret': st.get('rewrite_ret'), 'extract_cost': (st.get('extract') or {}).get('cost'),
                     'live': len(st['live']), 'nodes': st['nodes'], 'progress': st['progress'], 'same_class': rel,
                     'union_ret': st.get('union_ret'), 'check': (st.get('check') or {}).get('check')})
     return {'steps': out, 'panic': bool(rec.get('panic'))}
